@@ -326,6 +326,14 @@ export function f4() {
   out.push(Rec(Tpl("a", H("string")), P("number")), Rec(FmtS("f1"), P("number")), Rec(Tpl(H(["a", "b"]), "x"), P("number")));
   out.push(ObjT([], [{ key: Tpl("a", H("string")), val: P("number") }]));
   out.push(U(Tpl("a", H("string")), Tpl("b", H("number"))));
+  // key type × value type of records / pure index signatures (the schema has special cases per value type)
+  const recKeys = [P("string"), Tpl("a", H("string")), Tpl("x-", H("string")), FmtS("f1"), Tpl(H(["a", "b"]), "x"), Tpl(H("number"))];
+  const recVals = [P("any"), P("unknown"), P("string"), U(P("number"), P("null")), ObjT([Prop("v", P("any"))])];
+  for (const k of recKeys)
+    for (const v of recVals) {
+      out.push(Rec(k, v));
+      if (k.k === "prim" || (k.k === "tpl" && k.parts.some((p) => typeof p !== "string" && !Array.isArray(p.p)))) out.push(ObjT([], [{ key: k, val: v }]));
+    }
   return out;
 }
 
@@ -458,6 +466,52 @@ export function f3() {
     ],
     [["A", Ref("DUN")]],
     "nested discriminators",
+  );
+  // discriminated unions one of whose members is an intersection of two object types that both declare the
+  // discriminator, one with a wider literal set than the other (the printer has to pick the narrower one):
+  // partner key sorting before/after the discriminator × member order × named/inline parts × other member
+  {
+    const decls = [];
+    const parsers = [];
+    let i = 0;
+    for (const pk of ["id", "zid"])
+      for (const wideFirst of [true, false])
+        for (const named of [0, 1, 2, 3])
+          for (const other of [ObjT([Prop("kind", L("c"))]), ObjT([Prop("kind", L("b")), Prop("w", P("boolean"))])]) {
+            i++;
+            let wide = ObjT([Prop(pk, P("string")), Prop("kind", U(L("a"), L("b")))]);
+            let narrow = ObjT([Prop("kind", L("a")), Prop("r", P("number"))]);
+            if (named & 1) {
+              decls.push(Alias(`W${i}`, wide));
+              wide = Ref(`W${i}`);
+            }
+            if (named & 2) {
+              decls.push(Alias(`N${i}`, narrow));
+              narrow = Ref(`N${i}`);
+            }
+            const inter = wideFirst ? I(wide, narrow) : I(narrow, wide);
+            decls.push(Alias(`M${i}`, inter));
+            parsers.push([`D${i}`, U(Ref(`M${i}`), other)]);
+            if (i % 4 === 0) parsers.push([`DI${i}`, U(inter, other)]);
+          }
+    add(decls, parsers, "discriminated unions over intersections declaring the discriminator twice");
+  }
+  // declared property names that Object.prototype also has (every runtime lookup by key has to be an own-property one)
+  add(
+    [
+      Alias("HO", ObjT([Prop("constructor", P("string")), Prop("toString", P("number"))])),
+      Alias("HU1", U(ObjT([Prop("a", P("string"))]), ObjT([Prop("toString", P("string"))]))),
+      Alias("HU2", U(ObjT([Prop("a", P("string"))]), ObjT([Prop("constructor", P("string"))]))),
+      Alias("HU3", U(ObjT([Prop("a", P("string")), Prop("constructor", P("string"), true)]), ObjT([Prop("a", P("string")), Prop("hasOwnProperty", P("number"))]))),
+      Alias("HI", I(ObjT([Prop("a", P("string"))]), ObjT([Prop("toString", P("string"))]))),
+      Alias("HN", ObjT([Prop("valueOf", P("number"))])),
+      Alias("HIN", I(Ref("HN"), ObjT([Prop("constructor", P("string"), true)]))),
+      Alias("HD", U(ObjT([Prop("constructor", L("a")), Prop("x", P("number"))]), ObjT([Prop("constructor", L("b")), Prop("y", P("string"))]))),
+      Alias("HR", Rec(U(L("constructor"), L("toString")), P("number"))),
+      Alias("HOpt", ObjT([Prop("toString", P("string"), true), Prop("a", P("number"))])),
+    ],
+    [["A", Ref("HO")], ["B", Ref("HU1")], ["C", Ref("HU2")], ["D", Ref("HU3")], ["E", Ref("HI")], ["F", Ref("HIN")], ["G", Ref("HD")], ["H", Ref("HR")], ["I", Ref("HOpt")], ["J", ArrT(Ref("HU1"))]],
+    "declared names shared with Object.prototype",
   );
   // intersections of named objects
   add(
